@@ -251,7 +251,7 @@ RULE_IDS = [
     "dupProperty", "dupMethod", "memberClash", "dupSymbol",
     "reservedTypePrefix", "reservedTypeName", "reservedMethodName", "reservedPropertyName", "reservedConstantName", "reservedFunctionName",
     "missingBase", "baseNotClass", "danglingType", "cycle",
-    "redeclaredProperty", "redeclaredMethod", "ctorMissingInherited",
+    "redeclaredProperty", "redeclaredMethod", "ctorMissingInherited", "inheritedClash",
     "danglingDocClass", "danglingDocConst", "danglingDocAttr",
     "ctorDefault", "ctorPropInit", "ctorMissing", "ctorArgNames", "ctorArgOrder", "ctorArgType",
     "nestedOptional", "listOfOptional", "patternInvalid", "patternEmpty", "patternNotAnchored", "dupInvariantDescription",
@@ -483,6 +483,11 @@ def _flags(enums: List[Any], classes: List[Any], bodies: List[Dict[str, Any]], s
             sound = False
         if c["ctor"] is None and any(by_name[q]["ctor"] for q in reach[c["name"]]):
             sound = False
+        seen_owner: Dict[str, str] = {}
+        for q in sorted(reach[c["name"]]):
+            for p in by_name[q]["props"]:
+                if seen_owner.setdefault(p["name"], q) != q:
+                    sound = False
     for c, body in zip(classes, bodies):
         if c["ctor"] is None or not sound:
             continue
@@ -961,6 +966,13 @@ def oracle_rules(A: Dict[str, Any], tables: Optional[Dict[str, Any]] = None) -> 
             bad.add("redeclaredMethod")
         if c["ctor"] is None and any(a["ctor"] for a in ancs):
             bad.add("ctorMissingInherited")
+        # a property name must not come down from two different ancestors (one ancestor reached twice is fine)
+        owners: Dict[str, Set[str]] = {}
+        for a in ancs:
+            for p in a["props"]:
+                owners.setdefault(p["name"], set()).add(a["name"])
+        if any(len(v) >= 2 for v in owners.values()):
+            bad.add("inheritedClash")
 
     # ---- stacked properties (own + inherited, ancestors first)
     def stacked(n: str, seen: Tuple[str, ...] = ()) -> List[Tuple[str, Dict[str, Any]]]:
@@ -1082,6 +1094,7 @@ MESSAGE_RULES: List[Tuple[str, str]] = [
     (r"^The method has already been defined in the ancestor", "redeclaredMethod"),
     (r"^The method conflicts with the property defined in the ancestor", "redeclaredMethod"),
     (r"does not specify a constructor, but the ancestor", "ctorMissingInherited"),
+    (r"is inherited in the class .* both from the class", "inheritedClash"),
     (r"^The identifier of the reference to our type could not be found", "danglingDocClass"),
     (r"^The identifier of the reference to a constant could not be found", "danglingDocConst"),
     (r"^Dangling reference to a non-existing", "danglingDocAttr"),
@@ -1363,6 +1376,56 @@ def catalogue(base: Any, T: Dict[str, Any], rng: Any, n_reserved: int = 2) -> Li
             add("redeclaredMethod", f"redeclared-method-{kind}:{child}<{a}", both_methods, "frozen")
         if any(ctor0[a] is not None for a in anc[child]):
             add("ctorMissingInherited", f"ctor-missing-inherited:{child}", lambda m, child=child: m._no_init.add(child), "frozen")
+    # ---- one property name from two different ancestors
+    def dedupe_ctors(m: Any) -> None:
+        """Explicit constructors, ancestors first, every argument name once (a twice-inherited name is passed to both parents)."""
+        for c in m.classes:
+            c.ctor = None
+        for c in sorted(m.classes, key=lambda c: len(mm.ancestors(m, c.name))):
+            ct = mm.default_ctor(m, c.name)
+            if ct is not None:
+                seen_args: Set[str] = set()
+                ct.args = [a for a in ct.args if not (a.name in seen_args or seen_args.add(a.name))]
+                ct.args = [a for a in ct.args if a.default is None] + [a for a in ct.args if a.default is not None]
+            c.ctor = ct
+
+    for n in names:
+        ps = base.cls(n).bases
+        for i, p1 in enumerate(ps):
+            for p2 in ps[i + 1 :]:
+                if p1 in anc[p2] or p2 in anc[p1]:
+                    continue
+
+                def clash_both(m: Any, p1: str = p1, p2: str = p2) -> None:
+                    m.cls(p1).props.append(mm.Prop("zz_clash", P("int")))
+                    m.cls(p2).props.append(mm.Prop("zz_clash", P("int")))
+                    dedupe_ctors(m)
+
+                add("inheritedClash", f"inherited-clash-two-parents:{n}<{p1},{p2}", clash_both, "derived")
+                for g in anc[p1]:
+                    if g not in anc[p2] and g != p2:
+                        def clash_grand(m: Any, g: str = g, p2: str = p2) -> None:
+                            m.cls(g).props.append(mm.Prop("zz_clash", O(P("str"))))
+                            m.cls(p2).props.append(mm.Prop("zz_clash", O(P("str"))))
+                            dedupe_ctors(m)
+
+                        add("inheritedClash", f"inherited-clash-grandparent-and-parent:{n}<{g},{p2}", clash_grand, "derived")
+                        break
+        stacked_here = mm.all_props(base, n)
+        for kind, cands in (("parent", [(p, o) for p, o in stacked_here if o in ps]), ("grandparent", [(p, o) for p, o in stacked_here if o != n and o not in ps]), ("own", [(p, o) for p, o in stacked_here if o == n])):
+            if not cands:
+                continue
+            prop0 = cands[0][0]
+
+            def other_parent(m: Any, n: str = n, prop0: Any = prop0) -> None:
+                m.classes.append(mm.Class("Zz_other_parent", props=[mm.Prop(prop0.name, prop0.type)], abstract=True))
+                m.cls(n).bases.append("Zz_other_parent")
+
+            # own: the class itself declares the name again -> that is a redeclaration, not a clash between ancestors
+            add("inheritedClash" if kind != "own" else "redeclaredProperty", f"inherited-clash-new-parent-vs-{kind}:{n}", other_parent, "frozen")
+        roots_above = [a for a in anc[n] if not base.cls(a).bases and a not in ps]
+        if roots_above:
+            add("valid", f"valid-ancestor-reached-twice:{n}<{roots_above[0]}", lambda m, n=n, r=roots_above[0]: m.cls(n).bases.append(r), "derived")
     # ---- constructors
     for n in names:
         c0 = ctor0[n]
